@@ -29,7 +29,8 @@ SPEC = Spec(
          "harness (external package e2etest): the real envprovider behind a recording wrapper, ${env:NAME}, ${NAME}, ${env:NAME:-default}, "
          "unset and invalid names, ToStringMap + string/any decoding. override stream (1/7): a later source replaces keys whose earlier value is a "
          "reference to a provider MAP / an unresolvable reference (exact-override, must-succeed and provider-call oracles; every reference "
-         "provider reports its calls as `tr retrieved`). non-trivial = a token value with a reference "
+         "provider reports its calls as `tr retrieved`). dname (1/5 of rand): the only reference has a $ at the first/last/middle position of "
+         "its NAME (with/without scheme, whole/embedded, nested, in a list): must be the $-in-name error, provider never consulted. non-trivial = a token value with a reference "
          "and an escape, or more than one source; distinct = distinct op sequences.",
     trusted_base=[
         "Lean 4.33.0 kernel; axioms per theorem under axioms_per_theorem",
